@@ -508,3 +508,47 @@ Proof.
     eapply veq_trans; [apply vlink_all_perm; eassumption|].
     apply veq_sym, veval_all; assumption.
 Qed.
+
+(* ---------- relocation sites in a linked set (C21) ---------- *)
+Lemma alllinkable_in l u w : AllLinkable l -> In u l -> In w l -> u = w \/ Linkable u w.
+Proof.
+  induction l as [|v r IH]; cbn; intros Hall Hu Hw; [contradiction|].
+  destruct Hall as (Hv & Hr). rewrite Forall_forall in Hv.
+  destruct Hu as [<-|Hu], Hw as [<-|Hw]; auto.
+  right. apply linkable_sym. auto.
+Qed.
+
+(* if a file of the set defines n at t, so does the linked set *)
+Lemma lbl_all_defined l w n t : Forall ViewInv l -> AllLinkable l -> In w l -> v_lbl w n = Some (t, false) ->
+  v_lbl (vlink_all l) n = Some (t, false).
+Proof.
+  induction l as [|v r IH]; cbn [In vlink_all fold_right]; intros Hinv Hall Hin Hw; [contradiction|].
+  change (fold_right vlink vempty r) with (vlink_all r).
+  inversion Hinv as [|? ? Iv Ir]; subst. destruct Hall as (Hv & Hr).
+  assert (Lv : Linkable v (vlink_all r)) by (apply linkable_all_iff; assumption).
+  cbn [v_lbl vlink]. apply lmerge_defined; [apply linkable_agree; exact Lv|].
+  destruct Hin as [<-|Hin]; [left; exact Hw|right; eapply IH; eauto].
+Qed.
+
+(* a `.fill n` site of one file of the set: resolved exactly when the set defines n *)
+Lemma site_in_all l u addr n : Forall ViewInv l -> AllLinkable l -> In u l -> v_pend u addr = Some n ->
+  v_img (vlink_all l) addr = match is_defined (v_lbl (vlink_all l) n) with Some t => Some (Some t) | None => v_img u addr end /\
+  v_pend (vlink_all l) addr = match is_defined (v_lbl (vlink_all l) n) with Some _ => None | None => Some n end.
+Proof.
+  induction l as [|v r IH]; cbn [In vlink_all fold_right]; intros Hinv Hall Hin Hu; [contradiction|].
+  change (fold_right vlink vempty r) with (vlink_all r).
+  inversion Hinv as [|? ? Iv Ir]; subst. destruct Hall as (Hv & Hr).
+  assert (Lv : Linkable v (vlink_all r)) by (apply linkable_all_iff; assumption).
+  rewrite vlink_img_eq, vlink_pend_eq. cbn [v_lbl vlink].
+  destruct Hin as [<-|Hin].
+  - destruct (pend_covered _ _ _ Iv Hu) as (w & Hw). rewrite Hu, Hw. cbn. split; reflexivity.
+  - assert (Iu : ViewInv u) by (rewrite Forall_forall in Ir; auto).
+    destruct (pend_covered _ _ _ Iu Hu) as (w & Hw).
+    assert (Lvu : Linkable v u) by (rewrite Forall_forall in Hv; auto).
+    assert (Nv : v_img v addr = None) by (destruct Lvu as (D & _); destruct (D addr) as [K|K]; [exact K|congruence]).
+    rewrite Nv, (pend_none_of_img _ _ Iv Nv). cbn [first_of].
+    destruct (IH Ir Hr Hin Hu) as (I1 & I2). rewrite I1, I2.
+    destruct (is_defined (v_lbl (vlink_all r) n)) as [t|] eqn:D.
+    + rewrite (is_defined_lmerge_r _ _ t (linkable_agree _ _ n Lv) D). cbn. split; reflexivity.
+    + rewrite Hw. cbn. split; reflexivity.
+Qed.
